@@ -1,7 +1,7 @@
 (* ===== C15 : lexing is whitespace-insensitive, quote-faithful; spans ordered ===== *)
 From Coq Require Import List NArith ZArith Bool Arith.
 Import ListNotations.
-Require Import GenTok Tok Classify TokEr TokWs TokLaws TokSpans Parser Parser2 Parser3 GenTie.
+Require Import GenTok Tok Classify TokEr TokWs TokLaws TokSpans Parser Parser2 Parser3 GenTie TokVerbatim.
 Open Scope N_scope.
 
 (* Inserting a whitespace character at a top-level token boundary changes no token (text, kind), for ANY classifier. *)
@@ -40,6 +40,22 @@ Theorem C15_backtick_name_alone : forall cl w, w <> [] -> forallb plain_in_backt
   tokenize cl (cBT :: w ++ [cBT]) = inl [name_tok w 0 (length w)].
 Proof. exact backtick_name_alone. Qed.
 
+(* Quoted regions of EVERY kind (back-quoted names, brace-quoted and call-style Python fragments, %operators%, string literals inside them) are
+   taken verbatim: while a quote context is open a step either appends exactly the character read, or that character is the delimiter closing
+   the outermost name / brace / %-region and the token collected so far is emitted unchanged; so over any stretch during which the context
+   does not close down to the top level the token text grows by exactly that stretch, whatever operator characters, quotes or brackets it holds *)
+Theorem C15_quoted_step_verbatim : forall cl s i c s', qc s <> [] -> step cl s i c = inl s' ->
+  appended s s' c \/ closed_outermost s s' c \/ closed_inner_empty s s' c.
+Proof. exact quoted_step_verbatim. Qed.
+Theorem C15_quoted_run_verbatim : forall cl w s i s', truthy (cur s) = true -> qc s <> [] -> inside cl s i w = true ->
+  run cl s i w = inl s' -> ttext (cur s') = ttext (cur s) ++ w /\ out s' = out s.
+Proof. exact quoted_run_verbatim. Qed.
+(* non-vacuity: after "f(" the stretch  a+"(}",`~|`[1)  is inside the call's context throughout *)
+Example C15_quoted_run_example :
+  exists s, run (classify_with []) init 0 [102; 40] = inl s /\ truthy (cur s) = true /\ qc s <> [] /\
+            inside (classify_with []) s 2 [97; 43; 34; 40; 125; 34; 44; 96; 126; 124; 96; 91; 49] = true.
+Proof. eexists. split; [vm_compute; reflexivity|]. split; [reflexivity|]. split; [discriminate | vm_compute; reflexivity]. Qed.
+
 (* Recorded spans are well-formed, inside the string, ordered and non-overlapping, for EVERY input the tokenizer accepts.  (Before the repair of
    /repo that resets the current token after an empty top-level quoted region this needed a side condition on the input, and "%%(+b)" refuted
    the full statement: the span of '+' swallowed the bracket.) *)
@@ -77,6 +93,9 @@ Print Assumptions C15_backtick_name_alone.
 Print Assumptions C15_spans_ordered_disjoint.
 Print Assumptions C15_spans_ordered_readable.
 Print Assumptions C15_spans_empty_quote_now_ordered.
+Print Assumptions C15_quoted_step_verbatim.
+Print Assumptions C15_quoted_run_verbatim.
+Print Assumptions C15_quoted_run_example.
 Print Assumptions C15_example_spans.
 Print Assumptions C15_ascii_table_side_conditions.
 Print Assumptions C15_tokenizer_literals_are_the_code's.
